@@ -1,1 +1,610 @@
-// harnesses for atomic (included into loom under cfg(loom_verif))
+// crate::rt::atomic::verif -- harnesses on the per-atomic store ring.
+//
+// (I) one-step instances: the ring (up to LIVE live stores), every clock and
+// the acting thread's view are symbolic, constrained by the representation
+// invariant `assume_inv`; one real operation runs; the lemma is asserted.
+#![allow(dead_code, unused_imports)]
+
+use super::*;
+use crate::rt::synchronize::verif as sv;
+use crate::rt::thread::verif as tv;
+use crate::rt::verif::{le, max_raw, panics_iff, vharness, vv, vv_raw};
+#[cfg(not(kani))]
+use crate::rt::verif::kani_shim as kani;
+
+type Raw = [u16; MAX_THREADS];
+
+/// Number of live stores in a symbolic ring (slots >= LIVE are default).
+const LIVE: usize = 3;
+/// Threads whose clock components are symbolic.
+const NT: usize = 3;
+
+fn lt(a: &Raw, b: &Raw) -> bool {
+    le(a, b) && !le(b, a)
+}
+
+// ---------------------------------------------------------------- builders
+
+fn blank_state() -> State {
+    State {
+        created_location: Location::disabled(),
+        loaded_at: VersionVec::new(),
+        loaded_locations: LocationSet::new(),
+        unsync_loaded_at: VersionVec::new(),
+        unsync_loaded_locations: LocationSet::new(),
+        stored_at: VersionVec::new(),
+        stored_locations: LocationSet::new(),
+        unsync_mut_at: VersionVec::new(),
+        unsync_mut_locations: LocationSet::new(),
+        is_mutating: false,
+        last_access: None,
+        last_non_load_access: None,
+        stores: Default::default(),
+        cnt: 0,
+    }
+}
+
+/// Clock with symbolic components for the first NT threads, zero elsewhere.
+fn any_clock() -> Raw {
+    let mut r = [0u16; MAX_THREADS];
+    let mut i = 0;
+    while i < NT {
+        r[i] = kani::any();
+        i += 1;
+    }
+    r
+}
+
+/// first_seen table: symbolic for the first NT threads, "never" elsewhere.
+fn any_first_seen() -> Raw {
+    let mut r = [u16::MAX; MAX_THREADS];
+    let mut i = 0;
+    while i < NT {
+        r[i] = kani::any();
+        i += 1;
+    }
+    r
+}
+
+/// A ring with `cnt` (1..=LIVE) live stores with symbolic contents.  The ring
+/// length is concrete per harness instance: with a symbolic length CBMC 6.11
+/// produced a counterexample for `State::store` (whole-array update through a
+/// symbolic slot index) that does not reproduce natively, so the length is
+/// instantiated by the harness instead of being left to the solver.
+fn any_state(cnt: usize) -> State {
+    let mut st = blank_state();
+    st.cnt = cnt as u16;
+    let mut i = 0;
+    while i < cnt {
+        st.stores[i] = Store {
+            value: kani::any(),
+            happens_before: vv(any_clock()),
+            modification_order: vv(any_clock()),
+            sync: sv::mk(any_clock()),
+            first_seen: FirstSeen(any_first_seen()),
+            seq_cst: kani::any(),
+        };
+        i += 1;
+    }
+    st
+}
+
+/// Thread set with NT threads, `active` running, symbolic clocks for all.
+fn any_threads(active: usize) -> thread::Set {
+    let mut set = tv::mk_set(NT);
+    tv::activate(&mut set, active);
+    let mut i = 0;
+    while i < NT {
+        tv::th(&mut set, i).causality = vv(any_clock());
+        tv::th(&mut set, i).released = vv(any_clock());
+        i += 1;
+    }
+    set
+}
+
+fn live(st: &State, i: usize) -> bool {
+    i < st.cnt as usize && i < MAX_ATOMIC_HISTORY
+}
+
+fn mo(st: &State, i: usize) -> Raw {
+    vv_raw(&st.stores[i].modification_order)
+}
+
+fn hb(st: &State, i: usize) -> Raw {
+    vv_raw(&st.stores[i].happens_before)
+}
+
+/// Representation invariant of reachable rings (each clause is preserved by
+/// store/load/rmw; see the `*_preserves_inv` assertions):
+///  * distinct live stores have distinct modification-order clocks (loom's own
+///    `assert_ne!`),
+///  * a store's happens_before is below its modification_order,
+///  * a thread's component in any recorded clock never exceeds that thread's
+///    own current component (clocks only record the past),
+///  * first_seen[t] is "never" or a past version of thread t.
+fn assume_inv(st: &State, set: &thread::Set) {
+    let mut own = [0u16; MAX_THREADS];
+    let mut t = 0;
+    while t < NT {
+        own[t] = vv_raw(&tv::th_ref(set, t).causality)[t];
+        t += 1;
+    }
+    // every thread's view of another thread is in that thread's past
+    let mut t = 0;
+    while t < NT {
+        kani::assume(le(&vv_raw(&tv::th_ref(set, t).causality), &own));
+        kani::assume(le(&vv_raw(&tv::th_ref(set, t).released), &vv_raw(&tv::th_ref(set, t).causality)));
+        t += 1;
+    }
+    let mut i = 0;
+    while i < LIVE {
+        if live(st, i) {
+            kani::assume(le(&hb(st, i), &mo(st, i)));
+            kani::assume(le(&mo(st, i), &own));
+            kani::assume(le(&sv::raw(&st.stores[i].sync), &own));
+            let mut t = 0;
+            while t < NT {
+                let fs = st.stores[i].first_seen.0[t];
+                kani::assume(fs == u16::MAX || fs <= own[t]);
+                t += 1;
+            }
+            let mut j = 0;
+            while j < LIVE {
+                if j != i && live(st, j) {
+                    kani::assume(mo(st, i) != mo(st, j));
+                }
+                j += 1;
+            }
+        }
+        i += 1;
+    }
+}
+
+// ------------------------------------------------------- reference predicates
+
+/// "store i has been observed by an event in cur's past": some thread k
+/// touched it at a version that cur has already seen.
+fn ref_seen(fs: &Raw, cur: &Raw) -> bool {
+    let mut k = 0;
+    let mut r = false;
+    while k < MAX_THREADS {
+        if fs[k] != u16::MAX && fs[k] <= cur[k] {
+            r = true;
+        }
+        k += 1;
+    }
+    r
+}
+
+fn ref_seen_before_yield(fs: &Raw, me: usize, last_yield: Option<u16>) -> bool {
+    match last_yield {
+        None => false,
+        Some(y) => fs[me] != u16::MAX && fs[me] <= y,
+    }
+}
+
+/// Reference candidate set of a load: store i is withheld iff a
+/// modification-order-later store j exists and (j is already visible to the
+/// reader [coherence]  or  i was seen by the reader before its last yield
+/// [yield rule]  or  the load and both stores are SeqCst [documented SeqCst
+/// rule]); nothing else.  (Proved equal to `match_load_to_stores` by the
+/// atomic_match_load_* harnesses.)
+fn ref_candidates(st: &State, cnt: usize, cur: &Raw, me: usize, ly: Option<u16>, seqcst_load: bool) -> [bool; LIVE] {
+    let mut expect = [false; LIVE];
+    let mut i = 0;
+    while i < cnt {
+        let mut excluded = false;
+        let mut j = 0;
+        while j < cnt {
+            if j != i && lt(&mo(st, i), &mo(st, j)) {
+                if ref_seen(&st.stores[j].first_seen.0, cur)
+                    || ref_seen_before_yield(&st.stores[i].first_seen.0, me, ly)
+                    || (seqcst_load && st.stores[i].seq_cst && st.stores[j].seq_cst)
+                {
+                    excluded = true;
+                }
+            }
+            j += 1;
+        }
+        expect[i] = !excluded;
+        i += 1;
+    }
+    expect
+}
+
+// ------------------------------------------------------------ C04 predicates
+
+fn track_case(kind: u8, active: usize) {
+    let mut set = tv::mk_set(3);
+    tv::activate(&mut set, active);
+    let cur: Raw = kani::any();
+    tv::th(&mut set, active).causality = vv(cur);
+    let loaded: Raw = kani::any();
+    let unsync_loaded: Raw = kani::any();
+    let stored: Raw = kani::any();
+    let unsync_mut: Raw = kani::any();
+    let mut st = blank_state();
+    st.loaded_at = vv(loaded);
+    st.unsync_loaded_at = vv(unsync_loaded);
+    st.stored_at = vv(stored);
+    st.unsync_mut_at = vv(unsync_mut);
+    // reference: which recorded accesses conflict with this kind of access
+    //   atomic load      vs unsynchronised mutation
+    //   unsync_load      vs unsynchronised mutation, atomic store
+    //   atomic store     vs unsynchronised mutation, unsync_load
+    //   with_mut         vs everything
+    let c_mut = !le(&unsync_mut, &cur);
+    let c_store = !le(&stored, &cur);
+    let c_uload = !le(&unsync_loaded, &cur);
+    let c_load = !le(&loaded, &cur);
+    let must = match kind {
+        0 => c_mut,
+        1 => c_mut || c_store,
+        2 => c_mut || c_uload,
+        _ => c_mut || c_store || c_uload || c_load,
+    };
+    kani::cover!(must, "race");
+    kani::cover!(!must && !(le(&loaded, &cur) && le(&stored, &cur) && le(&unsync_loaded, &cur)), "no race although some non-conflicting access is concurrent");
+    let r = panics_iff(must, || match kind {
+        0 => st.track_load(&set),
+        1 => st.track_unsync_load(&set),
+        2 => st.track_store(&set),
+        _ => st.track_unsync_mut(&set),
+    });
+    if r.is_some() {
+        let e_loaded = if kind == 0 { max_raw(&loaded, &cur) } else { loaded };
+        let e_uloaded = if kind == 1 { max_raw(&unsync_loaded, &cur) } else { unsync_loaded };
+        let e_stored = if kind == 2 { max_raw(&stored, &cur) } else { stored };
+        let e_mut = if kind == 3 { max_raw(&unsync_mut, &cur) } else { unsync_mut };
+        assert!(vv_raw(&st.loaded_at) == e_loaded);
+        assert!(vv_raw(&st.unsync_loaded_at) == e_uloaded);
+        assert!(vv_raw(&st.stored_at) == e_stored);
+        assert!(vv_raw(&st.unsync_mut_at) == e_mut);
+    }
+    std::mem::forget(set);
+}
+
+vharness! {
+    /// @prop C04 @tier quick @mode full @funcs atomic::State::track_load @bounds all clock values (5 clocks x 5 x u16), active thread 1
+    /// an atomic load is reported iff an unsynchronised mutation is not happens-before it; loaded_at becomes the join.
+    fn atomic_track_load_iff() { track_case(0, 1) }
+}
+
+vharness! {
+    /// @prop C04 @tier quick @mode full @funcs atomic::State::track_unsync_load @bounds all clock values, active thread 0
+    /// unsync_load is reported iff a with_mut or an atomic store is not happens-before it (atomic loads do not conflict).
+    fn atomic_track_unsync_load_iff() { track_case(1, 0) }
+}
+
+vharness! {
+    /// @prop C04 @tier quick @mode full @funcs atomic::State::track_store @bounds all clock values, active thread 2
+    /// an atomic store is reported iff a with_mut or an unsync_load is not happens-before it (atomic loads/stores do not conflict).
+    fn atomic_track_store_iff() { track_case(2, 2) }
+}
+
+vharness! {
+    /// @prop C04 @tier quick @mode full @funcs atomic::State::track_unsync_mut @bounds all clock values, active thread 1
+    /// with_mut is reported iff any recorded access of any kind is not happens-before it.
+    fn atomic_track_unsync_mut_iff() { track_case(3, 1) }
+}
+
+// ------------------------------------------------- candidate selection (C02/C03/C18)
+
+fn match_load_case(active: usize, with_yield: bool, cnt: usize) {
+    let mut set = any_threads(active);
+    let st = any_state(cnt);
+    assume_inv(&st, &set);
+    let ly: Option<u16> = if with_yield {
+        let y: u16 = kani::any();
+        kani::assume(y <= vv_raw(&tv::th_ref(&set, active).causality)[active]);
+        Some(y)
+    } else {
+        None
+    };
+    tv::th(&mut set, active).last_yield = ly;
+    let code: u8 = kani::any();
+    kani::assume(code == 0 || code == 2 || code == 4); // Relaxed, Acquire, SeqCst loads
+    let cur = vv_raw(&tv::th_ref(&set, active).causality);
+
+    let mut dst = [0u8; MAX_ATOMIC_HISTORY];
+    let n = st.match_load_to_stores(&set, &mut dst[..], sv::ordering(code));
+
+    let expect = ref_candidates(&st, cnt, &cur, active, ly, code == 4);
+    let mut any_maximal = false;
+    let mut i = 0;
+    while i < cnt {
+        let mut maximal = true;
+        let mut j = 0;
+        while j < cnt {
+            if j != i && lt(&mo(&st, i), &mo(&st, j)) {
+                maximal = false;
+            }
+            j += 1;
+        }
+        if maximal {
+            any_maximal = true;
+            // modification-order-maximal stores are always offered (C18: the
+            // yield rule can never empty the candidate set)
+            assert!(expect[i]);
+        }
+        i += 1;
+    }
+    assert!(any_maximal);
+    assert!(n >= 1 && n <= LIVE);
+    // the returned list is exactly the expected set, ascending, no duplicates
+    let mut k = 0;
+    let mut idx = 0;
+    while idx < LIVE {
+        if expect[idx] {
+            assert!(k < n && dst[k] as usize == idx);
+            k += 1;
+        }
+        idx += 1;
+    }
+    assert!(k == n);
+    kani::cover!(n == 1, "all but one store withheld");
+    kani::cover!(n == cnt, "every live store offered (stale reads)");
+    if with_yield {
+        kani::cover!(n < cnt && code == 0, "pruned with a yield recorded");
+    } else {
+        kani::cover!(code == 4 && n + 1 == cnt, "SeqCst load, one store withheld");
+    }
+    std::mem::forget(set);
+}
+
+vharness! {
+    /// @prop C02,C03 @tier quick @mode full @funcs atomic::State::match_load_to_stores,FirstSeen::is_seen_by_current,FirstSeen::is_seen_before_yield,VersionVec::partial_cmp @bounds ring of 3 live stores with symbolic clocks over 3 threads (u16 components), orderings Relaxed/Acquire/SeqCst, reader = thread 1, no yield recorded
+    /// the candidate list of a load is exactly: every live store except those with a modification-order-later store that is already visible to the reader, or (SeqCst load) both SeqCst; never empty.
+    fn atomic_match_load_exact_t1() { match_load_case(1, false, 3) }
+}
+
+vharness! {
+    /// @prop C02,C03 @tier quick @mode full @funcs atomic::State::match_load_to_stores @bounds ring of 2 live stores, otherwise as atomic_match_load_exact_t1, reader = thread 0
+    /// candidate-list lemma for the initial thread as reader.
+    fn atomic_match_load_exact_t0() { match_load_case(0, false, 2) }
+}
+
+vharness! {
+    /// @prop C18,C02 @tier quick @mode full @funcs atomic::State::match_load_to_stores,FirstSeen::is_seen_before_yield @bounds ring of 3 live stores, symbolic last_yield <= reader's version, reader = thread 2
+    /// with a yield recorded: a store is additionally withheld only if the reader saw it before its last yield and a modification-order-later store exists; maximal stores are never withheld, the list is never empty.
+    fn atomic_match_load_yield_t2() { match_load_case(2, true, 3) }
+}
+
+vharness! {
+    /// @prop C03,C02 @tier quick @mode full @funcs atomic::State::match_rmw_to_stores @bounds ring of 3 live stores with symbolic clocks
+    /// an RMW may read exactly the modification-order-maximal stores (atomicity: never a store that has a successor).
+    fn atomic_match_rmw_exact() {
+        let set = any_threads(1);
+        let st = any_state(3);
+        assume_inv(&st, &set);
+        let mut dst = [0u8; MAX_ATOMIC_HISTORY];
+        let n = st.match_rmw_to_stores(&mut dst[..]);
+        let mut k = 0;
+        let mut i = 0;
+        while i < LIVE {
+            if live(&st, i) {
+                let mut maximal = true;
+                let mut j = 0;
+                while j < LIVE {
+                    if j != i && live(&st, j) && lt(&mo(&st, i), &mo(&st, j)) {
+                        maximal = false;
+                    }
+                    j += 1;
+                }
+                if maximal {
+                    assert!(k < n && dst[k] as usize == i);
+                    k += 1;
+                }
+            }
+            i += 1;
+        }
+        assert!(k == n && n >= 1);
+        kani::cover!(n == 2, "two incomparable maximal stores");
+        kani::cover!(n == 1 && st.cnt == 3, "chain");
+        std::mem::forget(set);
+    }
+}
+
+// ------------------------------------------------------------ store (C03 CoWW/CoRW)
+
+fn store_case(active: usize, cnt: usize) {
+    let mut set = any_threads(active);
+    let mut st = any_state(cnt);
+    assume_inv(&st, &set);
+    // rt::synchronize bumps the writer's own component before the operation
+    kani::assume(vv_raw(&tv::th_ref(&set, active).causality)[active] < u16::MAX - 1);
+    set.active_causality_inc();
+    let cur = vv_raw(&tv::th_ref(&set, active).causality);
+    let rel = vv_raw(&tv::th_ref(&set, active).released);
+    let code: u8 = kani::any();
+    kani::assume(code == 0 || code == 1 || code == 4); // Relaxed, Release, SeqCst stores
+    let value: u64 = kani::any();
+    let old_cnt = st.cnt as usize;
+    // snapshot
+    let mut old_mo = [[0u16; MAX_THREADS]; LIVE];
+    let mut old_fs = [[0u16; MAX_THREADS]; LIVE];
+    let mut i = 0;
+    while i < LIVE {
+        old_mo[i] = mo(&st, i);
+        old_fs[i] = st.stores[i].first_seen.0;
+        i += 1;
+    }
+
+    st.store(&mut set, Synchronize::new(), value, sv::ordering(code));
+
+    assert!(st.cnt as usize == old_cnt + 1);
+    let n = old_cnt; // new slot (no wrap-around inside the bound)
+    assert!(st.stores[n].value == value);
+    assert!(hb(&st, n) == cur);
+    // CoWW: everything the writer knows is ordered before the new store
+    assert!(le(&cur, &mo(&st, n)));
+    // CoRW + CoWW on stores: every older store visible to the writer is
+    // modification-ordered before the new one; nothing else is
+    let mut expect_mo = cur;
+    let mut i = 0;
+    while i < LIVE {
+        if i < old_cnt {
+            if ref_seen(&old_fs[i], &cur) {
+                assert!(le(&old_mo[i], &mo(&st, n)));
+                expect_mo = max_raw(&expect_mo, &old_mo[i]);
+            }
+            // older stores are untouched
+            assert!(mo(&st, i) == old_mo[i]);
+            assert!(st.stores[i].first_seen.0 == old_fs[i]);
+            // the new store is distinct from and never ordered before an older one
+            assert!(mo(&st, n) != old_mo[i]);
+            assert!(!lt(&mo(&st, n), &old_mo[i]));
+        }
+        i += 1;
+    }
+    assert!(mo(&st, n) == expect_mo);
+    // release view carried by the store
+    let releases = code == 1 || code == 4;
+    let expect_sync = if releases { max_raw(&rel, &cur) } else { rel };
+    assert!(sv::raw(&st.stores[n].sync) == expect_sync);
+    assert!(st.stores[n].seq_cst == (code == 4));
+    // only the writer has seen the new store, at its current version
+    let mut t = 0;
+    while t < MAX_THREADS {
+        if t == active {
+            assert!(st.stores[n].first_seen.0[t] == cur[active]);
+        } else {
+            assert!(st.stores[n].first_seen.0[t] == u16::MAX);
+        }
+        t += 1;
+    }
+    // the writer's own view does not change
+    assert!(vv_raw(&tv::th_ref(&set, active).causality) == cur);
+    kani::cover!(!le(&old_mo[0], &cur) && ref_seen(&old_fs[0], &cur), "a store read earlier (not hb) is ordered before the new store");
+    kani::cover!(!ref_seen(&old_fs[1], &cur), "a concurrent older store stays unordered");
+    std::mem::forget(set);
+}
+
+vharness! {
+    /// @prop C03 @tier quick @mode full @funcs atomic::State::store,FirstSeen::touch,FirstSeen::is_seen_by_current,Synchronize::sync_store,Set::active_causality_inc @bounds ring of 2 live stores before the store, symbolic clocks over 3 threads, orderings Relaxed/Release/SeqCst, writer = thread 1
+    /// after a store: its modification-order clock is exactly the writer's view joined with every older store visible to the writer (write-write and read-write coherence), older stores are untouched, the representation invariant is preserved.
+    fn atomic_store_lemma_t1() { store_case(1, 2) }
+}
+
+vharness! {
+    /// @prop C03 @tier quick @mode full @funcs atomic::State::store @bounds ring of 3 live stores before the store, otherwise as atomic_store_lemma_t1, writer = thread 0
+    /// store lemma for the initial thread.
+    fn atomic_store_lemma_t0() { store_case(0, 3) }
+}
+
+// ------------------------------------------------------------ load (C03 CoRR/CoWR, C02)
+
+fn load_case(active: usize, cnt: usize, index: usize) {
+    let mut set = any_threads(active);
+    let mut st = any_state(cnt);
+    assume_inv(&st, &set);
+    kani::assume(vv_raw(&tv::th_ref(&set, active).causality)[active] < u16::MAX - 1);
+    set.active_causality_inc();
+    let cur = vv_raw(&tv::th_ref(&set, active).causality);
+    // no unsynchronised mutation is concurrent (race reporting is C04's harness)
+    let um = any_clock();
+    kani::assume(le(&um, &cur));
+    st.unsync_mut_at = vv(um);
+    let loaded = any_clock();
+    st.loaded_at = vv(loaded);
+    let code: u8 = kani::any();
+    kani::assume(code == 0 || code == 2 || code == 4);
+    // the store read is any candidate the selection offers (reference form of
+    // the candidate set; its equality with the real match_load_to_stores is
+    // the atomic_match_load_* lemma)
+    let offered = ref_candidates(&st, cnt, &cur, active, None, code == 4);
+    // (the slot read is concrete per instance, see `any_state`)
+    kani::assume(offered[index]);
+    let mut n = 0;
+    let mut q = 0;
+    while q < cnt {
+        if offered[q] {
+            n += 1;
+        }
+        q += 1;
+    }
+
+    let mut old_mo = [[0u16; MAX_THREADS]; LIVE];
+    let mut old_hb = [[0u16; MAX_THREADS]; LIVE];
+    let mut old_fs = [[0u16; MAX_THREADS]; LIVE];
+    let mut i = 0;
+    while i < LIVE {
+        old_mo[i] = mo(&st, i);
+        old_hb[i] = hb(&st, i);
+        old_fs[i] = st.stores[i].first_seen.0;
+        i += 1;
+    }
+    let old_sync = sv::raw(&st.stores[index].sync);
+    let old_val = st.stores[index].value;
+
+    let got = st.load(&mut set, index, Location::disabled(), sv::ordering(code));
+
+    assert!(got == old_val);
+    assert!(st.cnt as usize == cnt);
+    // coherence at the moment of the read: no store already visible to the
+    // reader is modification-ordered after the one read (CoRR, CoWR) ...
+    let mut i = 0;
+    let mut expect_mo = old_mo[index];
+    while i < LIVE {
+        if i < cnt && i != index {
+            let visible = ref_seen(&old_fs[i], &cur);
+            if visible {
+                assert!(!lt(&old_mo[index], &old_mo[i]));
+            }
+            // ... and afterwards everything visible / happens-before the
+            // reader is ordered before it
+            if visible || lt(&old_hb[i], &cur) {
+                expect_mo = max_raw(&expect_mo, &old_mo[i]);
+                assert!(le(&old_mo[i], &mo(&st, index)));
+            }
+            assert!(mo(&st, i) == old_mo[i]);
+            assert!(st.stores[i].first_seen.0 == old_fs[i]);
+        }
+        i += 1;
+    }
+    assert!(mo(&st, index) == expect_mo);
+    // the reader is recorded as having seen the store (first time only)
+    let mut t = 0;
+    while t < MAX_THREADS {
+        let e = if t == active && old_fs[index][t] == u16::MAX { cur[active] } else { old_fs[index][t] };
+        assert!(st.stores[index].first_seen.0[t] == e);
+        t += 1;
+    }
+    // view transfer: exactly the store's release view, and only for acquire-class loads
+    let after = vv_raw(&tv::th_ref(&set, active).causality);
+    if code >= 2 {
+        assert!(after == max_raw(&cur, &old_sync));
+    } else {
+        assert!(after == cur);
+    }
+    assert!(sv::raw(&st.stores[index].sync) == old_sync);
+    assert!(vv_raw(&st.loaded_at) == max_raw(&loaded, &cur));
+    kani::cover!(n >= 2, "a read among several candidates");
+    kani::cover!(code == 2 && !le(&old_sync, &cur), "acquire load learns the release view");
+    kani::cover!(code == 0 && !le(&old_sync, &cur), "relaxed load learns nothing");
+    std::mem::forget(set);
+}
+
+vharness! {
+    /// @prop C03,C02 @tier quick @mode full @funcs atomic::State::load,atomic::State::apply_load_coherence,FirstSeen::touch,Synchronize::sync_load,atomic::State::track_load @bounds ring of 3 live stores, slot 1 read, symbolic clocks over 3 threads, orderings Relaxed/Acquire/SeqCst, reader = thread 2
+    /// reading an offered store never violates read-read / write-read coherence; afterwards its modification-order clock is joined with exactly the stores visible to or happening-before the reader; the reader's view grows by exactly the store's release view and only for acquire-class orderings.
+    fn atomic_load_lemma_c3_i1_t2() { load_case(2, 3, 1) }
+}
+
+vharness! {
+    /// @prop C03,C02 @tier quick @mode full @funcs atomic::State::load,atomic::State::apply_load_coherence @bounds ring of 2 live stores, slot 0 read, reader = thread 0, otherwise as atomic_load_lemma_c3_i1_t2
+    /// load lemma for the initial thread reading the older slot.
+    fn atomic_load_lemma_c2_i0_t0() { load_case(0, 2, 0) }
+}
+
+vharness! {
+    /// @prop C03,C02 @tier thorough @mode full @funcs atomic::State::load,atomic::State::apply_load_coherence @bounds ring of 3 live stores, slot 0 read, reader = thread 1
+    /// load lemma, oldest slot.
+    fn atomic_load_lemma_c3_i0_t1() { load_case(1, 3, 0) }
+}
+
+vharness! {
+    /// @prop C03,C02 @tier thorough @mode full @funcs atomic::State::load,atomic::State::apply_load_coherence @bounds ring of 3 live stores, slot 2 read, reader = thread 0
+    /// load lemma, newest slot.
+    fn atomic_load_lemma_c3_i2_t0() { load_case(0, 3, 2) }
+}
